@@ -162,6 +162,9 @@ def unary_ops(b, sp):
     tagc = "expand_dims(c=charged)" if not (sp.fermionic and odd) else "expand_dims(c=odd charge) on a fermionic array"
     for dual in (False, True):
         ops.append(("V2", tagc, m("expand_dims"), lambda ev, x, dual=dual: w.meth(ev, x, "expand_dims", min(1, nd), c=c, dual=dual)))
+    # a charged axis whose direction is inherited from a neighbour (dual left out): before the first, in the middle, after the last axis
+    for ax in sorted({0, min(1, nd), nd}):
+        ops.append(("V2", tagc, m("expand_dims"), lambda ev, x, ax=ax: w.meth(ev, x, "expand_dims", ax, c=c)))
     ops.append(("V2", "expand_dims(c=identity)", m("expand_dims"), lambda ev, x: w.meth(ev, x, "expand_dims", 0, c=ident, dual=True)))
     # fuse / unfuse / reshape
     for groups in _fuse_groupings(nd):
